@@ -59,7 +59,7 @@ func (S) Info() scen.Info {
 			"goroutine scheduling": "stub: seeded one-at-a-time scheduler; yields between operations, between reader chunks, inside visitor and transform callbacks",
 		},
 		QuickUnits: 24000, ThoroughUnits: 3000000, QuickSecs: 40, ThoroughSecs: 1200,
-		ProbeKeys: []string{"probe.reset_producer", "probe.assign_then_reset", "probe.copy_and_extend", "probe.largebytes_interleaved", "probe.two_readers_same_node", "probe.subset_match_bytes", "probe.subset_match_string", "probe.focused_transform", "probe.walk_transform", "probe.abandoned_builder", "probe.typed_node_in_pool", "probe.stream_bytes_node", "probe.callback_interleaved", "probe.loaded_node_in_pool", "probe.load_while_holding_loaded_nodes", "probe.iterator_nodes_retained", "probe.lookup_result_retained", "probe.extended_after_assign"},
+		ProbeKeys: []string{"probe.reset_producer", "probe.assign_then_reset", "probe.copy_and_extend", "probe.largebytes_interleaved", "probe.two_readers_same_node", "probe.subset_match_bytes", "probe.subset_match_string", "probe.focused_transform", "probe.walk_transform", "probe.abandoned_builder", "probe.typed_node_in_pool", "probe.stream_bytes_node", "probe.callback_interleaved", "probe.loaded_node_in_pool", "probe.load_while_holding_loaded_nodes", "probe.iterator_nodes_retained", "probe.lookup_result_retained", "probe.extended_after_assign", "probe.stream_reader_unusual_but_legal"},
 		EventsKey: "events",
 	}
 }
@@ -416,7 +416,20 @@ func (w *world) spawn(k int) {
 		}
 	case 7: // stream-backed bytes
 		b := t.Sub("stream").Bytes(1 + t.Choice(300, "stream.len"))
-		w.add(basicnode.NewBytesFromReader(bytes.NewReader(b)), model.BytesV(b), "bytes-from-reader", nil)
+		// the caller's reader behaves in any way io.ReadSeeker allows: short reads, and the last
+		// bytes delivered together with io.EOF
+		var rs io.ReadSeeker = bytes.NewReader(b)
+		origin := "bytes-from-reader"
+		if style := t.Choice(4, "stream.style"); style > 0 {
+			sr := &styledReader{b: b, eofWithData: style&1 != 0}
+			if style&2 != 0 {
+				sr.maxRead = 1 + t.Choice(16, "stream.maxread")
+			}
+			rs = sr
+			origin = fmt.Sprintf("bytes-from-reader(eofWithData=%v,maxRead=%d)", sr.eofWithData, sr.maxRead)
+			w.st.Inc("probe.stream_reader_unusual_but_legal")
+		}
+		w.add(basicnode.NewBytesFromReader(rs), model.BytesV(b), origin, nil)
 		w.st.Inc("probe.stream_bytes_node")
 	case 9: // bindnode typed map, with a repeated key if the builder lets it through
 		np := bindnode.Prototype((*TMap)(nil), ts.TypeByName("TMap"))
@@ -983,3 +996,43 @@ func min64(a, b int64) int64 {
 }
 
 func (S) Unit(u *scen.Unit) { u.Exec(nil) }
+
+// styledReader is a caller-supplied io.ReadSeeker over fixed bytes that uses the
+// freedoms the io contracts give: at most maxRead bytes per call (0: no limit),
+// and optionally io.EOF together with the last bytes.
+type styledReader struct {
+	b           []byte
+	pos         int64
+	maxRead     int
+	eofWithData bool
+}
+
+func (r *styledReader) Read(p []byte) (int, error) {
+	if r.pos >= int64(len(r.b)) {
+		return 0, io.EOF
+	}
+	if r.maxRead > 0 && len(p) > r.maxRead {
+		p = p[:r.maxRead]
+	}
+	n := copy(p, r.b[r.pos:])
+	r.pos += int64(n)
+	if r.eofWithData && r.pos == int64(len(r.b)) {
+		return n, io.EOF
+	}
+	return n, nil
+}
+
+func (r *styledReader) Seek(off int64, whence int) (int64, error) {
+	np := off
+	switch whence {
+	case io.SeekCurrent:
+		np += r.pos
+	case io.SeekEnd:
+		np += int64(len(r.b))
+	}
+	if np < 0 {
+		return 0, fmt.Errorf("negative position")
+	}
+	r.pos = np
+	return np, nil
+}
